@@ -25,6 +25,7 @@ from mirsym.engine import Harness, explore, Stats, Unsupported
 from mirsym.values import *
 from mirsym.models import some, none, ok, err
 from .irbuild import IR
+from mirsym.models_coll import MapV
 
 _prog = None
 X = 'ast::Expression'; S = 'ast::Statement'
@@ -44,7 +45,8 @@ class AST:
     def var(self, name='a', access=()): return self.ir.E(X, 'Variable', meta=self.meta(), name=StrV.of(name), access=VecV(list(access)))
     def num(self, v=1): return Enum(X, 'Number', [self.meta(), BigV(v)])
     def tuple(self, vals=None): return self.ir.E(X, 'Tuple', meta=self.meta(), values=VecV(vals if vals is not None else [self.var('a'), self.var('b')]))
-    def anon(self): return self.ir.E(X, 'AnonymousComponent', meta=self.meta(), id=StrV.of('C'), is_parallel=False, params=VecV([]), signals=VecV([self.var('a')]), names=none())
+    def anon(self, signals=None, names=None, tid='C'):
+        return self.ir.E(X, 'AnonymousComponent', meta=self.meta(), id=StrV.of(tid), is_parallel=False, params=VecV([]), signals=VecV(signals if signals is not None else [self.var('a')]), names=names if names is not None else none())
     def infix(self, l, r): return self.ir.E(X, 'InfixOp', meta=self.meta(), lhe=BoxV(l), infix_op=Enum('ast::ExpressionInfixOpcode', 'Add'), rhe=BoxV(r))
     def prefix(self, e): return self.ir.E(X, 'PrefixOp', meta=self.meta(), prefix_op=Enum('ast::ExpressionPrefixOpcode', 'Sub'), rhe=BoxV(e))
     def switch(self, c, t, f): return self.ir.E(X, 'InlineSwitchOp', meta=self.meta(), cond=BoxV(c), if_true=BoxV(t), if_false=BoxV(f))
@@ -106,6 +108,42 @@ def mk_stmt(ir, b, slot, e):
     raise KeyError(slot)
 
 
+def templates():
+    """the template table seen by the remover: `C` with inputs p, q (declared in this order) and output o; `C2` with outputs o1, o2"""
+    from mirsym.models_coll import MapV
+    return MapV([[StrV.of('C'), Opaque('template', 'C')], [StrV.of('C2'), Opaque('template', 'C2')]])
+
+
+def real_templates(ir, b, body):
+    """HashMap<String, TemplateData> with real TemplateData values: T (the body under test), C and C2 (the instantiated templates)"""
+    from mirsym.models_coll import MapV
+    def td(name, body_, ins, outs):
+        sig = lambda names: VecV([Struct('()', [StrV.of(n), 0]) for n in names])
+        return ir.S('TemplateData', file_id=0, name=StrV.of(name), body=body_, num_of_params=0, name_of_params=VecV([]), param_location=ir.range_(0, 0),
+                    input_signals=MapV(), output_signals=MapV(), is_parallel=False, is_custom_gate=False, input_declarations=sig(ins), output_declarations=sig(outs))
+    empty = lambda: ir.E(S, 'Block', meta=b.meta(), stmts=VecV([]))
+    return MapV([[StrV.of('T'), td('T', body, [], [])], [StrV.of('C'), td('C', empty(), *SIGS['C'])], [StrV.of('C2'), td('C2', empty(), *SIGS['C2'])]])
+
+
+SIGS = {'C': (['p'], ['o']), 'C2': (['p', 'q'], ['o1', 'o2'])}
+
+
+def install_templates(h):
+    R = lambda p, f: h.stub_res.append((re.compile(p), f))
+    sig = lambda names: VecV([Struct('()', [StrV.of(n), 0]) for n in names])
+    def decl(which):
+        def f(ex, a, m):
+            t = deref(a[0])
+            if isinstance(t, Opaque): return Ref([sig(SIGS[t.data][which])], 0)
+            return Ref(t.f, ex.prog.defs.struct_fields('TemplateData').index('input_declarations' if which == 0 else 'output_declarations'))
+        return f
+    R(r'(?:\w+::)*TemplateData::get_declaration_inputs', decl(0))
+    R(r'(?:\w+::)*TemplateData::get_declaration_outputs', decl(1))
+    R(r'(?:\w+::)*FileLibrary::get_line', lambda ex, a, m: some(7))
+    R(r'(?:errors::)?AnonymousComponentError::new', lambda ex, a, m: Opaque('anonerr'))
+    R(r'(?:errors::)?AnonymousComponentError::into_report', lambda ex, a, m: Opaque('report', 'anon'))
+
+
 def walk_has(v, variant):
     """independent walker over an engine value: is there an Expression of the given variant anywhere?"""
     v = deref(v)
@@ -125,7 +163,102 @@ def tasks(tier):
     n = len(COMBOS); chunk = (n + 31) // 32
     ts = [{'lo': i, 'hi': min(n, i + chunk)} for i in range(0, n, chunk)]
     ts += [{'part': 'expand', 'nl': nl, 'nr': nr} for nl in (1, 2, 3, 4) for nr in (nl, nl + 1)]
+    ts += [{'part': 'anon_expand', 'form': f, 'nsig': k, 'outs': o} for f in ('positional', 'named') for k in (1, 2, 3) for o in (1, 2)]
     return ts
+
+
+def run_anon_expand(task):
+    """`x <== C3(..)(e0, e1)` / `(x, y) <== C4(..)(e0, e1)` through the real remove_syntactic_sugar: the template C3 (C4) declares the inputs
+    p, q in this order and the output o (outputs o1, o2).  In the named form the argument names are SYMBOLIC one-character strings.
+    Expected: an error unless the arguments cover the inputs exactly; otherwise, in this order, the component is initialised, its
+    inputs are assigned in DECLARATION order (positionally, or by name with the operator written for that name) and the output(s) are
+    read in declaration order."""
+    pr = prog(); ir = IR(pr)
+    h = Harness(pr, 'parser'); stats = Stats()
+    h.notes['render_format'] = True
+    R = lambda p, f: h.stub_res.append((re.compile(p), f))
+    R(r'(?:errors::)?TupleError::boxed_report', lambda ex, a, m: BoxV(Opaque('report', 'tuple')))
+    R(r'(?:errors::)?AnonymousComponentError::boxed_report', lambda ex, a, m: BoxV(Opaque('report', 'anon')))
+    R(r'(?:errors::)?TupleError::into_report', lambda ex, a, m: Opaque('report', 'tuple'))
+    install_templates(h)
+    sugar_fn = pr.find('remove_syntactic_sugar', crate='parser')
+    nsig, outs, form = task['nsig'], task['outs'], task['form']
+    ins = ['p', 'q']; outn = ['o'] if outs == 1 else ['o1', 'o2']
+    cs = [z3.Int('n%d' % i) for i in range(nsig)]; ops = [z3.Bool('arrow%d' % i) for i in range(nsig)]
+    base = []
+    if form == 'named':
+        for i, c in enumerate(cs): h.inputs['n%d' % i] = c; base.append(z3.And(c >= 112, c <= 114))        # p, q or r
+        for i, o in enumerate(ops): h.inputs['arrow%d' % i] = o
+
+    def entry(ex):
+        b = AST(ir)
+        sig = [b.var('e%d' % i) for i in range(nsig)]
+        names = none()
+        if form == 'named':
+            opv = [Enum('ast::AssignOp', 'AssignSignal' if ex.decide(o) else 'AssignConstraintSignal') for o in ops]
+            names = some(VecV([Struct('()', [opv[i], StrV([cs[i]])]) for i in range(nsig)]))
+            ex.notes['ops'] = [o.var for o in opv]
+        call = b.anon(sig, names, 'K')
+        if outs == 1: st = ir.E(S, 'Substitution', meta=b.meta(), var=StrV.of('x'), access=VecV([]), op=Enum('ast::AssignOp', 'AssignConstraintSignal'), rhe=call)
+        else: st = ir.E(S, 'MultiSubstitution', meta=b.meta(), lhe=b.tuple([b.var('x'), b.var('y')]), op=Enum('ast::AssignOp', 'AssignConstraintSignal'), rhe=call)
+        body = ir.E(S, 'Block', meta=b.meta(), stmts=VecV([st]))
+        SIGS['K'] = (ins, outn)
+        tmap = real_templates(ir, b, body)
+        tmap.entries.append([StrV.of('K'), deref(tmap.entries[1][1]).__class__('TemplateData', list(deref(tmap.entries[1][1]).f))])
+        kt = deref(tmap.entries[-1][1]); fl = pr.defs.struct_fields('TemplateData')
+        sigv = lambda names_: VecV([Struct('()', [StrV.of(n), 0]) for n in names_])
+        kt.f[fl.index('name')] = StrV.of('K'); kt.f[fl.index('input_declarations')] = sigv(ins); kt.f[fl.index('output_declarations')] = sigv(outn)
+        kt.f[fl.index('body')] = ir.E(S, 'Block', meta=b.meta(), stmts=VecV([]))
+        reports = VecV([])
+        out = ex.call_mir(sugar_fn, [Ref([tmap], 0), Ref([MapV()], 0), Ref([Opaque('filelibrary')], 0), Ref([reports], 0)])
+        kept = [e for e in deref(out.f[0]).entries if deref(e[0]).concrete() == 'T']
+        return (ir.get(deref(kept[0][1]), 'body') if kept else None), len(reports.items)
+
+    def flat(v, out):
+        v = deref(v)
+        if isinstance(v, BoxV): return flat(v.f[0], out)
+        if v.var in ('Block',): [flat(x, out) for x in ir.get(v, 'stmts').items]
+        elif v.var == 'InitializationBlock': [flat(x, out) for x in ir.get(v, 'initializations').items]
+        elif v.var == 'Substitution': out.append(v)
+        elif v.var == 'Declaration': out.append(v)
+        else: out.append(v)
+        return out
+
+    def post(ex, res):
+        body, nrep = res
+        names = [chr(ex.concretize(c, 112, 114)) for c in cs] if form == 'named' else None
+        info = {'form': form, 'arguments': nsig, 'names': names, 'outputs': outs}
+        if form == 'named': okay = nsig == len(ins) and all(n in names for n in ins)
+        else: okay = nsig == len(ins)
+        if not okay:
+            ex.oblige(body is None and nrep >= 1, 'anon-expand', 'a call whose arguments do not cover the inputs p, q exactly is rejected with an error (%s)' % info, extra=info); return
+        ex.oblige(body is not None, 'anon-expand', 'a well-formed anonymous component call is expanded (%s)' % info, extra=info)
+        if body is None: return
+        items = flat(body, [])
+        subs = [x for x in items if x.var == 'Substitution']; decls = [x for x in items if x.var == 'Declaration']
+        def acc(x): return [deref(a).f[0].concrete() if deref(a).var == 'ComponentAccess' else '[]' for a in ir.get(x, 'access').items]
+        def rdesc(e):
+            e = deref(e)
+            if e.var == 'Call': return 'call ' + ir.get(e, 'id').concrete()
+            if e.var == 'Variable': return ir.get(e, 'name').concrete() + ''.join('.' + (deref(a).f[0].concrete() if deref(a).var == 'ComponentAccess' else '[]') for a in ir.get(e, 'access').items)
+            return e.var
+        got = [(ir.get(x, 'var').concrete(), acc(x), ir.get(x, 'op').var, rdesc(ir.get(x, 'rhe'))) for x in subs]
+        inits = [g for g in got if g[3] == 'call K']
+        ex.oblige(len(inits) == 1, 'anon-expand', 'the component is initialised exactly once with K(..) (%s)' % got, extra=info)
+        if len(inits) != 1: return
+        cid = inits[0][0]
+        ex.oblige(any(ir.get(d, 'name').concrete() == cid and ir.get(d, 'xtype').var == 'Component' for d in decls), 'anon-expand', 'the component `%s` is declared as a component' % cid, extra=info)
+        want = [(cid, [], 'AssignVar', 'call K')]
+        for k, inp in enumerate(ins):
+            pos = names.index(inp) if names else k
+            op = ex.notes['ops'][pos] if names else 'AssignConstraintSignal'
+            want.append((cid, [inp], op, 'e%d' % pos))
+        if outs == 1: want.append(('x', [], 'AssignConstraintSignal', '%s.o' % cid))
+        else: want += [('x', [], 'AssignConstraintSignal', '%s.o1' % cid), ('y', [], 'AssignConstraintSignal', '%s.o2' % cid)]
+        ex.oblige(got == want, 'anon-expand', 'the call behaves as the declared component: inputs assigned in declaration order (by position or by name), outputs read in declaration order (%s: got %s, expected %s)' % (info, got, want), extra=info)
+    st_, vs, inc = explore(h, entry, None, post=post, base=base, stats=stats, seed=common.seed())
+    for v in vs: v.extra['combo'] = ('anon_expand', json.dumps(v.extra.get('names')) + '/' + str(task), 'anon')
+    return {'stats': common.pack_stats(stats), 'violations': [common.pack_violation(v) for v in vs]}
 
 
 def run_expand(task):
@@ -176,6 +309,7 @@ def run_expand(task):
 
 def run_task(task):
     if task.get('part') == 'expand': return run_expand(task)
+    if task.get('part') == 'anon_expand': return run_anon_expand(task)
     pr = prog(); ir = IR(pr)
     h = Harness(pr, 'parser'); stats = Stats()
     R = lambda p, f: h.stub_res.append((re.compile(p), f))
@@ -192,6 +326,8 @@ def run_task(task):
         return fns[0]
     f_ct = trait_default('contains_tuple'); f_ca = trait_default('contains_anonymous_component')
     build = pr.find('build_basic_blocks', crate='structure'); envnew = pr.method(None, 'LiftingEnvironment', 'new')
+    rma = pr.find('remove_anonymous_from_statement', crate='parser'); sugar_fn = pr.find('remove_syntactic_sugar', crate='parser')
+    install_templates(h)
 
     def entry(ex):
         k = ex.concretize(idx, task['lo'], task['hi'] - 1)
@@ -204,6 +340,25 @@ def run_task(task):
         ca = ex.call_mir(f_ca, [Ref([st], 0), none()])
         # precondition of remove_tuples_from_statement: anonymous components have been expanded before (remove_syntactic_sugar)
         res = ex.call_mir(rm, [clone_val(st)]) if sugar == 'tuple' else None
+        if sugar == 'anon':
+            ra = ex.call_mir(rma, [Ref([templates()], 0), Ref([Opaque('filelibrary')], 0), clone_val(st), Ref([none()], 0)])
+            ex.notes['anon_result'] = ra
+            # the whole desugaring as parse_files runs it (anonymous components, then tuples) on a template whose body is this
+            # statement, followed by the real CFG / IR lifter on what is handed to the analysis
+            body = clone_val(st)
+            if deref(body).var != 'Block': body = ir.E(S, 'Block', meta=b.meta(), stmts=VecV([body]))
+            tmap = real_templates(ir, b, body)
+            reports = VecV([])
+            out = ex.call_mir(sugar_fn, [Ref([tmap], 0), Ref([MapV()], 0), Ref([Opaque('filelibrary')], 0), Ref([reports], 0)])
+            newt = deref(out.f[0])
+            kept = [e for e in newt.entries if deref(e[0]).concrete() == 'T']
+            ex.notes['kept'] = bool(kept); ex.notes['nreports'] = len(reports.items)
+            if kept:
+                nb = ir.get(deref(kept[0][1]), 'body')
+                ex.notes['final_has'] = (walk_has(nb, 'AnonymousComponent'), walk_has(nb, 'Tuple'))
+                if not any(ex.notes['final_has']):
+                    env = ex.call_mir(envnew, [])
+                    ex.call_mir(build, [Ref([clone_val(nb)], 0), Ref([env], 0), Ref([VecV([])], 0)])
         if res is not None and res.var == 'Ok' and not walk_has(res.f[0], 'Tuple'):
             # what the analysis does next with a desugared body: the real CFG / IR lifter must not reach one of its catch-all panics
             body = clone_val(res.f[0])
@@ -216,6 +371,16 @@ def run_task(task):
         has_t, has_a, ct, ca, res = out; combo = ex.notes['combo']
         ex.oblige(ct == has_t, 'contains', 'contains_tuple answers %s for %s (a tuple %s present)' % (ct, combo, 'is' if has_t else 'is not'))
         ex.oblige(ca == has_a, 'contains', 'contains_anonymous_component answers %s for %s' % (ca, combo))
+        ra = ex.notes.get('anon_result')
+        if ra is not None and ra.var == 'Ok':
+            left = walk_has(ra.f[0], 'AnonymousComponent')
+            ex.oblige(not left, 'anon-left', 'remove_anonymous_from_statement returned Ok but an anonymous component is still present (%s)' % (combo,), extra={'combo': combo})
+        if 'kept' in ex.notes:
+            if ex.notes['kept']:
+                fa, ft = ex.notes['final_has']
+                ex.oblige(not fa and not ft, 'sugar-left', 'the template handed to the analysis still contains %s (%s)' % ('an anonymous component' if fa else 'a tuple', combo), extra={'combo': combo})
+            else:
+                ex.oblige(ex.notes['nreports'] >= 1, 'silent-drop', 'a template that cannot be desugared is dropped with an error report (%s)' % (combo,), extra={'combo': combo})
         if res is not None and res.var == 'Ok':
             left = walk_has(res.f[0], 'Tuple')
             ex.oblige(not left, 'tuple-left', 'remove_tuples_from_statement returned Ok but a tuple is still present (%s)' % (combo,), extra={'combo': combo})
@@ -230,9 +395,10 @@ SRC_EXPR = {'plain': 'a + 2', 'top': '(a, b)', 'infix_l': '(a, b) + a', 'infix_r
             'index_2nd': 'm[0][(a, b)]', 'comp_index': 'c.o[(a, b)]', 'index_comp': 'd[(a, b)].o'}
 
 
-def source_for(slot, shape):
+def source_for(slot, shape, sugar='tuple'):
     e = SRC_EXPR.get(shape)
     if e is None: return None
+    if sugar == 'anon': e = e.replace('(a, b)', 'Sub()(a)')
     line = {'return': None, 'assert': 'assert(%s);' % e, 'log': 'log("x", %s);' % e, 'ceq_l': '%s === a;' % e, 'ceq_r': 'a === %s;' % e, 'subst_rhe': 'x = %s;' % e,
             'subst_idx': 'v[%s] = a;' % e, 'decl_dim': 'var w[2][%s];' % e, 'if_cond': 'if (%s) { }' % e, 'while_cond': 'while (%s) { }' % e,
             'block': '{ x = a; assert(%s); }' % e, 'if_body': 'if (a) { assert(%s); }' % e, 'else_body': None, 'while_body': None, 'init': 'var z = %s;' % e}.get(slot)
@@ -275,8 +441,7 @@ def confirm(combo):
     from . import realbin
     slot, shape, sugar = combo
     if slot == 'expand': return confirm_expand(shape)
-    if sugar != 'tuple': return None, 'engine-level only', None
-    src = source_for(slot, shape)
+    src = source_for(slot, shape, sugar)
     if src is None: return None, 'no source form for this combination', None
     d = tempfile.mkdtemp(prefix='vc18_', dir=common.CACHE)
     try:
